@@ -28,6 +28,18 @@ void run_case(ByteSource& s, CaseInfo& ci) {
   int d = gen_dim(s);
   unsigned kind = s.choose(8);
   ci.nontrivial = true;
+  // earlier use of the library on this thread (conversions from complex matrices, factories of other dimensions) must leave no trace
+  int npre = (int)s.choose(4);
+  for (int q = 0; q < npre; q++) {
+    int pd = gen_dim(s);
+    switch (s.choose(4)) {
+      case 0: { Mat M(pd); for (int i = 0; i < pd; i++) for (int j = i; j < pd; j++) { double re = 1.0 + i + 0.5 * j, im = i == j ? 0.0 : 0.75 + 0.25 * (i + j); M.a[i][j] = cld(re, im); M.a[j][i] = cld(re, -im); } GslMat g(M); SU_vector v(g.m); (void)v; break; }
+      case 1: { SU_vector v = SU_vector::Projector(pd, (int)s.choose(pd)); v *= 2.5; break; }
+      case 2: { SU_vector v = SU_vector::Identity(pd) - SU_vector::PosProjector(pd, (int)s.choose(pd)); (void)v; break; }
+      default: { SU_vector v = SU_vector::NegProjector(pd, (int)s.choose(pd)); auto g = v.GetGSLMatrix(); (void)g; break; }
+    }
+  }
+  if (npre) ci.label(fmt("earlier-calls-%d", npre));
   switch (kind) {
     case 0: {  // Projector
       int i = (int)s.choose(d);
@@ -122,10 +134,10 @@ void run_case(ByteSource& s, CaseInfo& ci) {
 void enumerate(const Emit& emit, const std::string&) {
   for (int d = 2; d <= 6; d++) {
     uint8_t db = (uint8_t)(d - 2);
-    for (int i = 0; i < d; i++) emit({db, 0, (uint8_t)i});
-    emit({db, 1});
-    for (int k = 0; k < d * d; k++) emit({db, 2, (uint8_t)k, 0});
-    for (int k = 0; k < d; k++) { emit({db, 3, (uint8_t)k}); emit({db, 4, (uint8_t)k}); }
-    for (int k = 1; k < d; k++) emit({db, 5, (uint8_t)(k - 1)});
+    for (int i = 0; i < d; i++) emit({db, 0, 0, (uint8_t)i});
+    emit({db, 1, 0});
+    for (int k = 0; k < d * d; k++) emit({db, 2, 0, (uint8_t)k, 0});
+    for (int k = 0; k < d; k++) { emit({db, 3, 0, (uint8_t)k}); emit({db, 4, 0, (uint8_t)k}); }
+    for (int k = 1; k < d; k++) emit({db, 5, 0, (uint8_t)(k - 1)});
   }
 }
